@@ -424,8 +424,85 @@ def main(chk):
     else:
         ob.status = 'vacuous'
     chk.end(ob)
+    try:
+        o3_reload_paused(chk, prog)
+    except Inconclusive as e:
+        chk.note_inconclusive('O3-reload-paused: %s' % e)
     # the gate's position in the client loop: executed Client::handle sessions with PAUSE / RESUME arriving while the client is idle
     hobl.handle_obligations(chk, prog, {'C16'}, ['pause'])
+
+
+@expectation('c16_reload_paused')
+def c16_reload_paused():
+    def f(res):
+        r = res[0]
+        if 'panic' in r or 'error' in r:
+            return ('panic' in r), 'native: %r' % (r,)
+        return (r.get('released_after_resume') is False, 'native: a client parked in wait_paused, then a RELOAD that re-creates the pool, then RESUME of every pool: the client is %s (%r)' %
+                ('STILL parked' if r.get('released_after_resume') is False else 'released', r))
+    return f
+
+
+def o3_reload_paused(chk, prog):
+    """A RELOAD that re-creates a pool (its definition changed) while the pool is paused: the clients parked on the OLD pool object must still be reached
+    by a later RESUME (which walks the NEW pool map) -- so the replacement either shares the old pool's pause flag and Notify, or wakes the old
+    pool's waiters."""
+    from checks import fromconfig as FC
+    ob = chk.begin('O3-reload-paused', 'ConnectionPool::from_config (real coroutine, nothing connected) replacing a pool whose definition hash differs, the old pool object '
+                   'being PAUSED: afterwards a RESUME issued on the new pool map reaches the clients parked on the old object (the new pool shares the old '
+                   'one\'s paused flag and Notify) or from_config itself has woken them (notify_waiters on the old Notify)', {})
+    ip = chk.interp(prog, 'O3-reload-paused')
+    install_stats_noops(ip)
+
+    def harness(ip_):
+        cfg = FC.base_config(ip_, prog)
+        srv = [FC.mk_srvcfg(ip_, prog, rstring('h'), BV(16, 5432), BV(64, 1))]
+        pool = FC.mk_pool_cfg(ip_, prog, [('0', srv, None)])
+        pm = MapV('hashmap')
+        pm.entries.append([rstring('db'), Cell(pool, 'pool')])
+        setf(prog, cfg, 'Config', 'pools', pm)
+        FC.install(ip_, cfg)
+        old_hash = ip_.fresh(64, 'old_hash')
+        old_db, _ = mk_pool(ip_, prog, [[mk_addr(ip_, prog, 0, 1)]], [MapV('hashmap')])
+        setf(prog, old_db, 'ConnectionPool', 'config_hash', old_hash)
+        old_paused = getf(prog, old_db, 'ConnectionPool', 'paused')
+        deref(ip_, old_paused).fields[0] = BV(1, 1)
+        old_notify = getf(prog, old_db, 'ConnectionPool', 'paused_waiter')
+        woken = []
+
+        def m_notify_waiters(c, n):
+            woken.append(n)
+            return unit()
+        ip_.overrides.append((re.compile(r'^(?:tokio::sync::)?Notify::notify_waiters$'), m_notify_waiters))
+        m = FC.current_pools(ip_)
+        names = prog.src.structs['PoolIdentifier']
+        vals = {'db': rstring('db'), 'user': rstring('u')}
+        m.entries.append([Agg([vals[n] for n in names], 'PoolIdentifier', list(names)), Cell(old_db, 'old_db')])
+        try:
+            FC.run_from_config(ip_, prog)
+        except Panic as p:
+            raise Inconclusive('from_config panic: ' + p.msg)
+        ob.nontrivial += 1
+        ents = FC.pool_entries(ip_, prog)
+        cps = [c for d, u, c in ents if d == 'db']
+        if not cps:
+            return
+        cp = cps[0]
+        if cp is old_db or getf(prog, cp, 'ConnectionPool', 'databases') is getf(prog, old_db, 'ConnectionPool', 'databases'):
+            return          # kept: same object, nothing to carry over
+        def same_cell(a, b):
+            return isinstance(a, Ptr) and isinstance(b, Ptr) and a.cell is b.cell
+        shares = same_cell(getf(prog, cp, 'ConnectionPool', 'paused_waiter'), old_notify) and same_cell(getf(prog, cp, 'ConnectionPool', 'paused'), old_paused)
+        woke_old = any(same_cell(w, old_notify) or (isinstance(w, Ptr) and deref(ip_, w) is deref(ip_, old_notify)) for w in woken)
+        if not shares and not woke_old:
+            chk.report(ob, 'C16/O3/reload-strands-paused-clients', 'a RELOAD that re-creates a paused pool gives the new pool a fresh pause flag and Notify and does not wake the old '
+                       'pool\'s waiters: clients held by the PAUSE stay parked for ever, no RESUME can reach them', {},
+                       {'commands': [{'op': 'reload_paused'}], 'expect': ['c16_reload_paused']})
+        if len(ob.samples) < 2:
+            ob.samples.append({'shares_pause_state': shares, 'woke_old_waiters': woke_old})
+    ip.explore(harness)
+    chk.absorb(ob, ip)
+    chk.end(ob)
 
 
 def witness_parked(wprog, await_idx, pause_prog, resume_prog, timeout_ms):
